@@ -58,8 +58,16 @@ func registrations(c *Ctx, rule string) (wr, rd []registration) {
 					var k, v ast.Expr
 					switch x := n.(type) {
 					case *ast.CallExpr:
-						if sel, ok := x.Fun.(*ast.SelectorExpr); ok && sel.Sel.Name == "Store" && len(x.Args) == 2 && isPkgVar(sel.X) {
-							k, v = x.Args[0], x.Args[1]
+						// a two-argument method of the package-level registry object: sync.Map.Store(K, V),
+						// or the setter of a hand-written registry type (reg.set(K, V))
+						if sel, ok := x.Fun.(*ast.SelectorExpr); ok && len(x.Args) == 2 && isPkgVar(sel.X) {
+							if sel.Sel.Name == "Store" {
+								k, v = x.Args[0], x.Args[1]
+							} else if t := pk.TypesInfo.TypeOf(x.Args[0]); t != nil && strings.HasSuffix(t.String(), "formats.Format") {
+								if _, isCall := x.Args[1].(*ast.CallExpr); isCall {
+									k, v = x.Args[0], x.Args[1]
+								}
+							}
 						}
 					case *ast.AssignStmt:
 						if len(x.Lhs) == 1 && len(x.Rhs) == 1 {
